@@ -5,90 +5,6 @@ import GojaModel.C03.Lemmas5
 
 namespace GojaModel.C03
 
-theorem apiNode_spec {runF : RunF} (HG : HypG runF) (HA : HypA runF) (lf : Nat) (k : Boundary) (b : Beh)
-    (s : Vm) (hI : Inv s) : ApiGood s (apiNode lf runF k b s) := by
-  cases k with
-  | try_ => exact tryB_spec HG HA b s hI
-  | runWrapped => exact runWrapped_spec HG HA lf b s hI
-  | runProgramRec => exact runProgramRec_spec HG HA 7 b s hI
-
-/-- one layer of the interpreter preserves the discipline for EVERY node kind -/
-theorem step_good {runF : RunF} (HG : HypG runF) (HA : HypA runF) (lf : Nat) :
-    ∀ (b : Beh) (s : Vm), Inv s → Good s (step lf runF b s) := by
-  intro b s hI
-  cases b with
-  | skip => exact ⟨by simpa [step, GoodCtl] using Same.refl s, fun _ => rfl⟩
-  | seq a b =>
-    simp only [step]
-    have hg := HG a s hI
-    generalize runF a s = r at hg
-    obtain ⟨o, s1⟩ := r
-    obtain ⟨hc, hq⟩ := hg
-    cases o with
-    | normal =>
-      simp only [GoodCtl] at hc
-      have hg2 := HG b s1 (hc.inv hI)
-      simp only
-      generalize runF b s1 = r2 at hg2
-      obtain ⟨o2, s2⟩ := r2
-      obtain ⟨hc2, hq2⟩ := hg2
-      refine ⟨?_, fun hn => (hq2 hn).trans (hq (by simp))⟩
-      cases o2 with
-      | normal => simp only [GoodCtl] at hc2 ⊢; exact hc.trans hc2
-      | thrown => simp only [GoodCtl] at hc2 ⊢; exact hc.ext_left hc2
-      | fatal => simp only [GoodCtl] at hc2 ⊢; exact hc.ext_left hc2
-      | stuck => simp [GoodCtl] at hc2
-    | thrown => exact ⟨by simpa [GoodCtl] using hc, fun _ => hq (by simp)⟩
-    | fatal => exact ⟨by simpa [GoodCtl] using hc, by simp [Quiet]⟩
-    | stuck => simp [GoodCtl] at hc
-  | probe id => simpa [step] using probe_good id s
-  | throw_ => exact ⟨by simpa [step, GoodCtl] using (Same.refl s).toExt true, fun _ => rfl⟩
-  | intr =>
-    have : Same s { s with interrupted := true } := ⟨rfl, rfl, rfl, rfl, rfl, rfl, rfl, rfl⟩
-    exact ⟨by simpa [step, GoodCtl] using this.toExt false, by simp [step, Quiet]⟩
-  | frame k ret body => exact frame_good HG lf k ret body s hI
-  | try_ hc hf body handler fin =>
-    simp only [step]
-    split
-    · rename_i h; exact tryStmt_good HG HA hc hf h body handler fin s hI
-    · exact HG body s hI
-  | goCall n f b => simpa [step] using goCall_good HG HA n f b s hI
-  | api k b => simpa [step] using (apiNode_spec HG HA lf k b s hI).toGood
-  | swallow k b =>
-    simp only [step]
-    have ha := apiNode_spec HG HA lf k b s hI
-    generalize apiNode lf runF k b s = r at ha
-    obtain ⟨o, s1⟩ := r
-    obtain ⟨h1, h2, h3⟩ := ha
-    unfold swallowRes
-    cases o with
-    | normal => exact ⟨by simpa [GoodCtl] using h2, fun _ => h3 (by simp)⟩
-    | thrown => exact ⟨by simpa [GoodCtl] using h2, fun _ => h3 (by simp)⟩
-    | stuck => exact absurd rfl h1
-    | fatal =>
-      simp only
-      split
-      · rename_i hc
-        simp only [Bool.and_eq_true, beq_iff_eq] at hc
-        exact ⟨by simpa [GoodCtl] using h2, fun _ => hc.2⟩
-      · exact ⟨by simpa [GoodCtl] using h2.toExt false, by simp [Quiet]⟩
-  | job b =>
-    have : Same s { s with jobQueue := s.jobQueue ++ [b] } := ⟨rfl, rfl, rfl, rfl, rfl, rfl, rfl, rfl⟩
-    exact ⟨by simpa [step, GoodCtl] using this, fun _ => rfl⟩
-
-/-- **closing induction**: the interpreter obeys the discipline for every fuel, behaviour and state -/
-theorem run_good : ∀ (fuel : Nat), HypG (run fuel) ∧ HypA (run fuel) := by
-  intro fuel
-  induction fuel with
-  | zero =>
-    refine ⟨fun b s _ => ?_, fun b s _ => ?_⟩
-    · exact ⟨by simpa [run, GoodCtl] using (Same.refl s).toExt false, by simp [run, Quiet]⟩
-    · exact ⟨by simp [run], by simpa [run] using Same.refl s, by simp [run, Quiet]⟩
-  | succ n ih =>
-    refine ⟨fun b s hI => ?_, fun b s hI => ?_⟩
-    · exact step_good ih.1 ih.2 n b s hI
-    · simpa [run, step, apiNode] using tryB_spec ih.1 ih.2 b s hI
-
 /-! ### the outermost calls -/
 
 theorem runWrapped_exit {runF : RunF} (HG : HypG runF) (HA : HypA runF) (lf : Nat) (b : Beh) (s : Vm)
@@ -112,13 +28,15 @@ theorem runWrapped_exit {runF : RunF} (HG : HypG runF) (HA : HypA runF) (lf : Na
     obtain ⟨ol, sl⟩ := l
     cases ol with
     | normal => exact ⟨l5 rfl, fun h => absurd h hoo⟩
-    | stuck => exact absurd rfl l1
+    | stuck => exact absurd rfl l1.1
+    | exit e => exact absurd rfl (l1.2 e)
     | thrown => exact absurd rfl l2
     | fatal => exact ⟨by simp [leaveAbrupt], fun _ => by simp [leaveAbrupt]⟩
   cases o with
   | normal => exact tail .normal (by simp)
   | thrown => exact tail .thrown (by simp)
-  | stuck => exact absurd rfl h1
+  | stuck => exact absurd rfl h1.1
+  | exit e => exact absurd rfl (h1.2 e)
   | fatal => simp [hl0, leaveAbrupt]
 
 /-- **RunProgram (outermost) is balanced** and leaves the queue empty -/
@@ -150,7 +68,7 @@ theorem runProgramOuter_spec {runF : RunF} (HG : HypG runF) (HA : HypA runF) (lf
     · simpa [outerPop, e5, outerEnter] using h2.ts
     · simpa [outerPop, e6, outerEnter] using h2.is
     · simpa [outerPop, e7, outerEnter] using h2.rs
-  have tail : ∀ oo : Outcome, oo ≠ .fatal → oo ≠ .stuck → s4.interrupted = s.interrupted →
+  have tail : ∀ oo : Outcome, oo ≠ .fatal → (oo ≠ .stuck ∧ ∀ e, oo ≠ .exit e) → s4.interrupted = s.interrupted →
       let l := leaveLoop runF lf { s4 with prg := none, sb := -1 }
       let res : Res := (match l.1 with
         | .normal => (oo, outerPop l.2)
@@ -171,25 +89,126 @@ theorem runProgramOuter_spec {runF : RunF} (HG : HypG runF) (HA : HypA runF) (lf
     | normal =>
       exact ⟨⟨hns, hsame, fun _ => by simpa [outerPop] using (l4 (by simp)).trans hq4⟩,
         by simpa [outerPop] using l5 rfl, fun h => absurd h hnf⟩
-    | stuck => exact absurd rfl l1
+    | stuck => exact absurd rfl l1.1
+    | exit e => exact absurd rfl (l1.2 e)
     | thrown => exact absurd rfl l2
     | fatal =>
       have hl0 : (outerPop sl).callStack.length = 0 := by rw [hsame.cs, h0]; rfl
       simp only [hl0, if_true]
-      exact ⟨⟨by simp, hsame.trans (leaveAbrupt_same (hsame.inv (fun _ => ⟨hprg, hsb⟩)) hl0), by simp [Quiet]⟩,
+      exact ⟨⟨⟨by simp, by simp⟩, hsame.trans (leaveAbrupt_same (hsame.inv (fun _ => ⟨hprg, hsb⟩)) hl0), by simp [Quiet]⟩,
         by simp [leaveAbrupt], fun _ => by simp [leaveAbrupt]⟩
   cases o with
-  | normal => exact tail .normal (by simp) (by simp) (by simpa [outerEnter] using h3 (by simp))
-  | thrown => exact tail .thrown (by simp) (by simp) (by simpa [outerEnter] using h3 (by simp))
-  | stuck => exact absurd rfl h1
+  | normal => exact tail .normal (by simp) ⟨by simp, by simp⟩ (by simpa [outerEnter] using h3 (by simp))
+  | thrown => exact tail .thrown (by simp) ⟨by simp, by simp⟩ (by simpa [outerEnter] using h3 (by simp))
+  | stuck => exact absurd rfl h1.1
+  | exit e => exact absurd rfl (h1.2 e)
   | fatal =>
     simp only
     have hl0 : (outerPop s4).callStack.length = 0 := by simp [outerPop, hcs4]
     simp only [hl0, if_true]
     have hsame : Same s (leaveAbrupt (outerPop s4)) :=
       fin1 { s4 with jobQueue := [], interrupted := false, prg := none, sb := -1 } rfl rfl rfl rfl rfl rfl rfl rfl rfl rfl rfl
-    exact ⟨⟨by simp, hsame, by simp [Quiet]⟩, by simp [leaveAbrupt, outerPop], fun _ => by simp [leaveAbrupt, outerPop]⟩
+    exact ⟨⟨⟨by simp, by simp⟩, hsame, by simp [Quiet]⟩, by simp [leaveAbrupt, outerPop], fun _ => by simp [leaveAbrupt, outerPop]⟩
 
+
+theorem apiNode_spec {runF : RunF} (HG : HypG runF) (HA : HypA runF) (lf : Nat) (k : Boundary) (b : Beh)
+    (s : Vm) (hI : Inv s) : ApiGood s (apiNode lf runF k b s) := by
+  cases k with
+  | try_ => exact tryB_spec HG HA b s hI
+  | runWrapped => exact runWrapped_spec HG HA lf b s hI
+  | runProgramRec => exact runProgramRec_spec HG HA 7 b s hI
+  | runProgram =>
+    simp only [apiNode]
+    split
+    · exact runProgramRec_spec HG HA 7 b s hI
+    · rename_i h
+      have h0 : s.callStack = [] := by
+        cases hc : s.callStack with
+        | nil => rfl
+        | cons a l => simp [hc] at h
+      exact (runProgramOuter_spec HG HA lf 7 b s hI h0).1
+
+/-- one layer of the interpreter preserves the discipline for EVERY node kind -/
+theorem step_good {runF : RunF} (HG : HypG runF) (HA : HypA runF) (lf : Nat) :
+    ∀ (b : Beh) (s : Vm), Inv s → Good s (step lf runF b s) := by
+  intro b s hI
+  cases b with
+  | skip => exact ⟨by simpa [step, GoodCtl] using Same.refl s, fun _ => rfl⟩
+  | seq a b =>
+    simp only [step]
+    have hg := HG a s hI
+    generalize runF a s = r at hg
+    obtain ⟨o, s1⟩ := r
+    obtain ⟨hc, hq⟩ := hg
+    cases o with
+    | normal =>
+      simp only [GoodCtl] at hc
+      have hg2 := HG b s1 (hc.inv hI)
+      simp only
+      generalize runF b s1 = r2 at hg2
+      obtain ⟨o2, s2⟩ := r2
+      obtain ⟨hc2, hq2⟩ := hg2
+      refine ⟨?_, fun hn => (hq2 hn).trans (hq (by simp))⟩
+      cases o2 with
+      | normal => simp only [GoodCtl] at hc2 ⊢; exact hc.trans hc2
+      | thrown => simp only [GoodCtl] at hc2 ⊢; exact hc.ext_left hc2
+      | fatal => simp only [GoodCtl] at hc2 ⊢; exact hc.ext_left hc2
+      | stuck => simp [GoodCtl] at hc2
+      | exit e => simp only [GoodCtl] at hc2 ⊢; exact hc.trans hc2
+    | thrown => exact ⟨by simpa [GoodCtl] using hc, fun _ => hq (by simp)⟩
+    | fatal => exact ⟨by simpa [GoodCtl] using hc, by simp [Quiet]⟩
+    | stuck => simp [GoodCtl] at hc
+    | exit e => exact ⟨by simpa [GoodCtl] using hc, fun _ => hq (by simp)⟩
+  | probe id => simpa [step] using probe_good id s
+  | throw_ => exact ⟨by simpa [step, GoodCtl] using (Same.refl s).toExt true, fun _ => rfl⟩
+  | break_ => exact ⟨by simpa [step, GoodCtl] using Same.refl s, fun _ => rfl⟩
+  | return_ => exact ⟨by simpa [step, GoodCtl] using Same.refl s, fun _ => rfl⟩
+  | intr =>
+    have : Same s { s with interrupted := true } := ⟨rfl, rfl, rfl, rfl, rfl, rfl, rfl, rfl⟩
+    exact ⟨by simpa [step, GoodCtl] using this.toExt false, by simp [step, Quiet]⟩
+  | frame k ret body => exact frame_good HG lf k ret body s hI
+  | try_ hc hf body handler fin =>
+    simp only [step]
+    split
+    · rename_i h; exact tryStmt_good HG HA hc hf h body handler fin s hI
+    · exact HG body s hI
+  | goCall n f b => simpa [step] using goCall_good HG HA n f b s hI
+  | api k b => simpa [step] using (apiNode_spec HG HA lf k b s hI).toGood
+  | swallow k b =>
+    simp only [step]
+    have ha := apiNode_spec HG HA lf k b s hI
+    generalize apiNode lf runF k b s = r at ha
+    obtain ⟨o, s1⟩ := r
+    obtain ⟨h1, h2, h3⟩ := ha
+    unfold swallowRes
+    cases o with
+    | normal => exact ⟨by simpa [GoodCtl] using h2, fun _ => h3 (by simp)⟩
+    | thrown => exact ⟨by simpa [GoodCtl] using h2, fun _ => h3 (by simp)⟩
+    | stuck => exact absurd rfl h1.1
+    | exit e => exact absurd rfl (h1.2 e)
+    | fatal =>
+      simp only
+      split
+      · rename_i hc
+        simp only [Bool.and_eq_true, beq_iff_eq] at hc
+        exact ⟨by simpa [GoodCtl] using h2, fun _ => hc.2⟩
+      · exact ⟨by simpa [GoodCtl] using h2.toExt false, by simp [Quiet]⟩
+  | job b =>
+    have : Same s { s with jobQueue := s.jobQueue ++ [b] } := ⟨rfl, rfl, rfl, rfl, rfl, rfl, rfl, rfl⟩
+    exact ⟨by simpa [step, GoodCtl] using this, fun _ => rfl⟩
+
+/-- **closing induction**: the interpreter obeys the discipline for every fuel, behaviour and state -/
+theorem run_good : ∀ (fuel : Nat), HypG (run fuel) ∧ HypA (run fuel) := by
+  intro fuel
+  induction fuel with
+  | zero =>
+    refine ⟨fun b s _ => ?_, fun b s _ => ?_⟩
+    · exact ⟨by simpa [run, GoodCtl] using (Same.refl s).toExt false, by simp [run, Quiet]⟩
+    · exact ⟨⟨by simp [run], by simp [run]⟩, by simpa [run] using Same.refl s, by simp [run, Quiet]⟩
+  | succ n ih =>
+    refine ⟨fun b s hI => ?_, fun b s hI => ?_⟩
+    · exact step_good ih.1 ih.2 n b s hI
+    · simpa [run, step, apiNode] using tryB_spec ih.1 ih.2 b s hI
 
 theorem runtimeTry_spec (fuel : Nat) (b : Beh) (s : Vm) (hI : Inv s) :
     ApiGood s (runtimeTry fuel b s) ∧
@@ -203,10 +222,11 @@ theorem runtimeTry_spec (fuel : Nat) (b : Beh) (s : Vm) (hI : Inv s) :
   cases o with
   | normal => exact ⟨⟨h1, h2, h3⟩, by simp⟩
   | thrown => exact ⟨⟨h1, h2, h3⟩, by simp⟩
-  | stuck => exact absurd rfl h1
+  | stuck => exact absurd rfl h1.1
+  | exit e => exact absurd rfl (h1.2 e)
   | fatal =>
     simp only
-    refine ⟨⟨by simp, ?_, by simp [Quiet]⟩, fun _ h0 => ?_⟩
+    refine ⟨⟨⟨by simp, by simp⟩, ?_, by simp [Quiet]⟩, fun _ h0 => ?_⟩
     · split
       · rename_i hl; exact h2.trans (leaveAbrupt_same (h2.inv hI) hl)
       · exact h2
